@@ -185,6 +185,19 @@ def info_schema(ctx):
                     v0, v1 = S.val(r["ops"][0]), S.val(r["ops"][1])
                     if getter in v0 and getter in v1:
                         ok = bool(re.search(r"@Some\.0\.0[)}]", v0 + "}")) and bool(re.search(r"@Some\.0\.1[)}]", v1 + "}"))
+        if not ok:
+            # the pair built inside `getter().map_or((Null, Null), |(a, b)| (.., ..))`
+            from ..lib import lifted_closures
+            for L in lifted_closures(prog, wfn, S):
+                if not (L.param and getter in L.param):
+                    continue
+                for bl in L.fn.blocks:
+                    for s in bl["stmts"]:
+                        r = s["rhs"]
+                        if r["rv"] == "agg" and r.get("tuple") and len(r["ops"]) == 2:
+                            v0, v1 = L.val(r["ops"][0]), L.val(r["ops"][1])
+                            if getter in v0 and getter in v1:
+                                ok = bool(re.search(r"@Some\.0\.0[)}]", v0 + "}")) and bool(re.search(r"@Some\.0\.1[)}]", v1 + "}"))
         ctx.check(ok, R, "writer keeps (first, second) order of %s" % getter, "", "create_table does not write the two components of %s() in order" % getter, wfn.loc(), fn=f.name,
                   key="%s|w-order|%s" % (R, getter))
     # reader
@@ -295,6 +308,21 @@ def sep1(ctx):
         joins += [args for b, n, args, t in symcalls(prog, g, S) if n.endswith("<impl [T]>::join")]
     So = Sym(prog, o)
     splits = [args for b, n, args, t in symcalls(prog, o, So) if n.endswith("<impl str>::split") and "c:59" in args[1]]
+    if len(joins) == 1 and not ("s:';'" in joins[0][1] or "c:59" in joins[0][1]):
+        # the separator string was hoisted into a local and captured: look the capture up at the closure's creation site(s), outwards
+        from ..lib import closure_caps
+        v = joins[0][1]
+        for _ in range(3):
+            m = re.search(r"\bp1\.(\d+)\b", v)
+            if not m:
+                break
+            for g in prog.unit(f):
+                for cid, caps in closure_caps(prog, g).items():
+                    if int(m.group(1)) < len(caps) and ("c:59" in caps[int(m.group(1))] or "s:';'" in caps[int(m.group(1))] or re.search(r"\bp1\.\d+\b", caps[int(m.group(1))])):
+                        v = caps[int(m.group(1))]
+            if "c:59" in v or "s:';'" in v:
+                joins[0][1] = v
+                break
     ctx.check(len(joins) == 1 and ("s:';'" in joins[0][1] or "c:59" in joins[0][1]) and len(splits) == 1, R, "separator is ';' on both sides", "", "enumeration separator differs: join %s, split %s" % (joins, splits), f.loc(), fn=f.name)
     # the split result reaches the builder unchanged, the joined list comes straight from the column
     ev = [args for b, n, args, t in symcalls(prog, o, So) if n.endswith("ColumnBuilder::enum_values")]
@@ -512,8 +540,14 @@ def table_clsid(ctx, rule="TABLE-CLSID"):
     tab, discr = tables.switch_table(prog, f)
     vs = tables.enum_variants(prog, "msi", "internal::package::PackageType")
     got = {}
+    sw = tables.first_switch(f)
+    tgt = {v: tg for v, tg in f.blocks[sw]["term"]["cases"]} if sw is not None else {}
     for d, name in (vs or {}).items():
         m = re.search(r"s:'([0-9A-Fa-f-]{36})'", str((tab or {}).get(d)))
+        if not m and d in tgt:
+            # `let text = match *self { V => CONST, .. }; parse_str(text)`: the literal is assigned in the arm's block
+            lits = [o["str"] for st in f.blocks[tgt[d]]["stmts"] for o in st["rhs"].get("ops", []) if o.get("k") == "const" and "str" in o]
+            m = re.fullmatch(r"([0-9A-Fa-f-]{36})", lits[0]) if len(lits) == 1 else None
         got[name] = m.group(1).upper() if m else None
     ctx.check(discr == "discr(*p1)" and got == CLSID_REF, rule, "clsid() table", str(got), "PackageType::clsid maps %s, the format assigns %s" % (got, CLSID_REF), f.loc(), fn=f.name, key=rule + "|clsid")
     g = prog.fn(PKG + "PackageType::from_clsid")
